@@ -12,6 +12,13 @@ Q = [(r'\bq\.push_back\(', 'vec_push_back(&this->q, ', 0), (r'\bq\.pop_back\(\)'
      # thread* is a pool index: p->f  ==>  POOL[p].f
      (r'(VEC_AT\(this->q, [^()]*\)|\b(?!this\b)[A-Za-z_]\w*)->(idx|ts_wakeup)\b', r'POOL[\1].\2', 0),
      (r'__auto_type (tmp|ret) = (VEC_AT)', r'th_t \1 = \2', 0)]
+US = [(r'RunQ rq;', 'struct URunQ rq; rq.current = CURRENT_;', 0), (r'LOG_ERROR_RETURN\((\w+), (-?\w+),[^;]*;', r'{ errno = \1; return \2; }', 0),
+      (r'__auto_type r = prepare_usleep\(timeout, (\w+), rq\);', r'struct USwitch r = prepare_usleep_(timeout, \1, rq);', 0),
+      (r'switch_context\(r\.from, r\.to\);', 'switch_context_(r.from, r.to);', 0), (r'switch_context_defer\(r\.from, r\.to, defer, defer_arg\);', 'switch_context_defer_(r.from, r.to, defer, defer_arg);', 0),
+      (r'r\.from->set_error_number\(\)', 'set_error_number_(r.from)', 0), (r'timeout\.(expired)\(\)', r'Timeout_\1(&timeout)', 0),
+      (r'rq\.current->is_shutting_down\(\)', 'is_shutting_down_(rq.current)', 0), (r'AtomicRunQ\(rq\)\.defer_to_new_thread\(\)', 'defer_to_new_thread_(rq)', 0),
+      (r'thread_create\(\(thread_entry&\)defer, defer_arg\);', 'thread_create_((void *)defer, defer_arg);', 0), (r'(?<![\w>.])thread_usleep\(timeout\)', 'photon_thread_usleep(timeout)', 0),
+      (r'(?<![\w>.])thread_yield\(\)', 'thread_yield_()', 0)]
 TARGETS = [
     Target('sat_add', U, r'uint64_t sat_add\(uint64_t x, uint64_t y\)'),
     Target('sat_sub', U, r'uint64_t sat_sub\(uint64_t x, uint64_t y\)'),
@@ -76,6 +83,11 @@ TARGETS = [
         (r'auto& sleepq = vcpu->sleepq;', ';', 1), (r'sleepq\.empty\(\)', 'sleepq_empty(vcpu)', 1), (r'sleepq\.front\(\)', 'sleepq_front(vcpu)', 1),
         (r'(?<![\w>.])min\(', 'photon_min(', 1),
         (r'vcpu->master_event_engine->wait_and_fire_events\(', 'engine_wait_and_fire_events(vcpu, ', 1)]),
+    Target('do_thread_usleep', TH, r'static int do_thread_usleep\(Timeout timeout, RunQ rq\)', rules=US),
+    Target('do_thread_usleep_defer', TH, r'static int do_thread_usleep_defer\(Timeout timeout,\s*defer_func defer, void\* defer_arg, RunQ rq\)', rules=US),
+    Target('yield_as_sleep', TH, r'inline int yield_as_sleep\(\)', rules=US),
+    Target('thread_usleep_pub', TH, r'int thread_usleep\(Timeout timeout\) (?=\{)', rules=US),
+    Target('thread_usleep_defer_pub', TH, r'int thread_usleep_defer\(Timeout timeout, defer_func defer, void\* defer_arg\) (?=\{)', rules=US),
     Target('shutdown_usleep', TH, r'static int do_shutdown_usleep\(Timeout timeout, RunQ rq\)', rules=[
         (r'timeout\.timeout_at_most\(', 'Timeout_at_most(&timeout, ', 1)]),
     Target('shutdown_usleep_defer', TH, r'static int do_shutdown_usleep_defer\(Timeout timeout,\s*defer_func defer, void\* defer_arg, RunQ rq\)', rules=[
@@ -95,7 +107,7 @@ TARGETS = [
     Target('pop_front', TH, r'thread\* pop_front\(\)', rules=Q + [(r'(?<![\w>.])down\(', 'SQ_down(this, ', 1)]),
     Target('pop', TH, r'int pop\(thread \*obj\)', rules=Q + [(r'(?<![\w>.])up\(', 'SQ_up(this, ', 1), (r'(?<![\w>.])down\(', 'SQ_down(this, ', 1)]),
 ]
-UNITS = {'sleep.c': 'sleep.c.in', 'sched.c': 'sched.c.in'}
+UNITS = {'sleep.c': 'sleep.c.in', 'sched.c': 'sched.c.in', 'usleep.c': 'usleep.c.in'}
 PROOFS = [
     Proof('sat_arith', 'sleep.c', 'h_sat', kind='L', min_obligations=2),
     Proof('timeout', 'sleep.c', 'h_timeout', kind='L', min_obligations=5),
@@ -106,6 +118,8 @@ PROOFS = [
     Proof('prepare_usleep', 'sched.c', 'h_prepare_usleep', kind='L', min_obligations=6),
     Proof('resume_pass', 'sched.c', 'h_resume_threads', kind='L', min_obligations=8, expect_loops=2, aux_violation=True),
     Proof('idle_wait', 'sched.c', 'h_idle_wait', kind='L', min_obligations=3),
+    Proof('usleep/dispatch', 'usleep.c', 'h_usleep', kind='L', min_obligations=4),
+    Proof('usleep/defer', 'usleep.c', 'h_usleep_defer', kind='L', min_obligations=4),
     Proof('shutdown_cap', 'sleep.c', 'h_shutdown', kind='L', min_obligations=3),
     Proof('sleepq/push_n6', 'sleep.c', 'h_heap', kind='B', defines=['HN=7', 'OP=0'], unwind=10, bound='at most 6 sleepers before the operation, all 64-bit deadlines', timeout=900, mem_gb=16),
     Proof('sleepq/push_n14', 'sleep.c', 'h_heap', kind='B', defines=['HN=15', 'OP=0'], unwind=18, bound='at most 14 sleepers before the operation, all 64-bit deadlines', timeout=3000, mem_gb=24, tier='thorough'),
